@@ -410,10 +410,10 @@ impl Scenario for C16S {
     }
     fn count(&self, tier: Tier, variant: &str) -> u64 {
         match (tier, variant) {
-            (Tier::Quick, "os") => 24000,
-            (Tier::Quick, _) => 6000,
-            (Tier::Thorough, "os") => 1_500_000,
-            (Tier::Thorough, _) => 400_000,
+            (Tier::Quick, "os") => 72_000,
+            (Tier::Quick, _) => 24_000,
+            (Tier::Thorough, "os") => 2_400_000,
+            (Tier::Thorough, _) => 800_000,
         }
     }
     fn rule(&self) -> &'static str {
